@@ -43,6 +43,15 @@ impl Index {
         self.first_key_map.insert(separator, branch)
     }
 
+    /// Verification hook (compiled only with `--cfg nomt_verif`): the entries in key order.
+    #[cfg(nomt_verif)]
+    pub fn verif_entries(&self) -> Vec<(Key, Arc<BranchNode>)> {
+        self.first_key_map
+            .iter()
+            .map(|(k, b)| (*k, b.clone()))
+            .collect()
+    }
+
     #[cfg(test)]
     pub fn into_iter(self) -> impl Iterator<Item = (Key, Arc<BranchNode>)> {
         self.first_key_map.into_iter()
